@@ -11,11 +11,44 @@ Local Open Scope string_scope.
 
 (* ---- the full statement: every call with schema-valid arguments delivers the caller's values ---- *)
 Definition C03_delivery_full : Prop :=
-  forall ser S snake vs kwargs n g, ser_wf ser -> generate S snake vs = Some g ->
+  forall ser S snake vs kwargs n g, ser_wf ser -> generate S snake vs = Some g -> NoDup (map v_name vs) ->
     typed_call n S snake vs kwargs = true ->
-    exists sent cs, call_method ser n S snake vs kwargs = Sent sent /\
+    exists sent cs, (forall m, n <= m -> call_method ser m S snake vs kwargs = Sent sent) /\
                     coerce_vars n S vs sent = Some cs /\
                     intended_vars ser n S snake vs kwargs = Some cs.
+
+(* ---- END TO END, proved: guards = the two open finding classes (names_ok: F7 parameter-name clashes,
+        inputs_ok: F18 colliding input field names).  The former guards g_f10 (serialize on the whole
+        argument) and g_f21 went away with /repo d163d56 and 1ef155d. ---- *)
+Theorem C03_sent_coerces_to_intended : forall ser, ser_wf ser -> forall S snake,
+  inputs_ok S snake = true ->
+  forall vs kwargs n g, generate S snake vs = Some g -> names_ok S snake vs = true ->
+    NoDup (map v_name vs) -> typed_call n S snake vs kwargs = true ->
+    exists sent cs, (forall m, n <= m -> call_method ser m S snake vs kwargs = Sent sent) /\
+                    coerce_vars n S vs sent = Some cs /\
+                    intended_vars ser n S snake vs kwargs = Some cs.
+Proof. exact call_delivery. Qed.
+Print Assumptions C03_sent_coerces_to_intended.
+
+Theorem C03_omitted_absent_call : forall ser, ser_wf ser -> forall S snake,
+  inputs_ok S snake = true ->
+  forall vs kwargs n g, generate S snake vs = Some g -> names_ok S snake vs = true ->
+    NoDup (map v_name vs) -> typed_call n S snake vs kwargs = true ->
+    forall v, In v vs -> assoc (pname snake (v_name v)) kwargs = None ->
+    exists sent, (forall m, n <= m -> call_method ser m S snake vs kwargs = Sent sent) /\
+                 jlookup (v_name v) sent = None.
+Proof. exact call_omitted_absent. Qed.
+Print Assumptions C03_omitted_absent_call.
+
+Theorem C03_none_is_null_call : forall ser, ser_wf ser -> forall S snake,
+  inputs_ok S snake = true ->
+  forall vs kwargs n g, generate S snake vs = Some g -> names_ok S snake vs = true ->
+    NoDup (map v_name vs) -> typed_call n S snake vs kwargs = true ->
+    forall v, In v vs -> assoc (pname snake (v_name v)) kwargs = Some PNone ->
+    exists sent, (forall m, n <= m -> call_method ser m S snake vs kwargs = Sent sent) /\
+                 jlookup (v_name v) sent = Some JNull.
+Proof. exact call_none_is_null. Qed.
+Print Assumptions C03_none_is_null_call.
 
 (* ---- signature and dict (unguarded, all schemas / variable lists) ---- *)
 Theorem C03_keys_are_graphql_names : forall S snake vs g,
@@ -65,17 +98,25 @@ Theorem C03_none_is_null : forall ser S snake n d kv k,
 Proof. exact convert_dict_none_null. Qed.
 Print Assumptions C03_none_is_null.
 
-(* ---- delivery of one argument: sent JSON is accepted by coercion and yields the caller's value.
-        Guards = finding classes: g_f10 (serialize on a non-T! variable), inputs_ok (F18: colliding
-        input field names).  (The former guard g_f21 went away with /repo 1ef155d.) ---- *)
-Theorem C03_sent_coerces_to_intended_partial : forall ser, ser_wf ser -> forall S snake,
+(* ---- delivery of one argument (any type, any wrapper nesting, with or without serialize): the JSON sent is
+        accepted by coercion and yields the caller's value.  Guard: inputs_ok (F18) only. ---- *)
+Theorem C03_arg_delivery : forall ser, ser_wf ser -> forall S snake,
   inputs_ok S snake = true ->
-  forall n t v, typed n S snake t v = true -> g_f10 S t = true ->
-  exists j c, (forall m, n <= m -> convert_value ser m S snake (wrap_arg ser S t v) = Some j) /\
+  forall n t v, typed n S snake t v = true ->
+  exists w j c, wrap_arg ser S t v = Some w /\
+              (forall m, n <= m -> convert_value ser m S snake w = Some j) /\
               coerce n S t j = Some c /\ intend ser n S snake t v = Some c /\
               (v <> PNone -> j <> JNull).
 Proof. exact arg_delivery. Qed.
-Print Assumptions C03_sent_coerces_to_intended_partial.
+Print Assumptions C03_arg_delivery.
+
+(* the generated dict expression computes the per-occurrence serialisation, value and call log *)
+Theorem C03_serialize_expression : forall ser f, (forall d, String.eqb f (item_name d) = false) ->
+  forall t env x nl depth v,
+    assoc x env = Some v -> assoc f env = None -> assoc "UNSET" env = None ->
+    eval_se ser env (gen_se t x f nl depth) = ser_arg ser f t nl (Nat.eqb depth 0) v.
+Proof. exact eval_gen. Qed.
+Print Assumptions C03_serialize_expression.
 
 (* the same for a value held by a field of a (nested) input model *)
 Theorem C03_field_delivery_partial : forall ser, ser_wf ser -> forall S snake,
@@ -102,39 +143,40 @@ Definition V (n : string) (t : gtype) : vardef := {| v_name := n; v_type := t; v
 Lemma ser_inst_wf : ser_wf ser_inst.
 Proof. intros f j H. exists (JArr [JStr f; j]). split; reflexivity. Qed.
 
-(* F10: omitted argument of a scalar with serialize -> the key IS sent (serialize(UNSET)) *)
-Theorem C03_omitted_absent_refuted : exists ser S snake vs kwargs sent,
-  call_method ser 8 S snake vs kwargs = Sent sent /\
-  assoc (pname snake "d") kwargs = None /\ jlookup "d" sent <> None.
-Proof.
-  exists (fun _ _ => PStr "str(UNSET)"), S1, true, [V "d" (TNamed "DT")], [], [("d", JStr "str(UNSET)")].
-  vm_compute. repeat split; discriminate.
-Qed.
+(* F10 (fixed by /repo d163d56) - the former refutation witnesses, kept as regression cases:
+   omitted -> no key; None -> null; list -> serialize per non-None item *)
+Example C03_f10_regression :
+  call_method ser_inst 8 S1 true [V "d" (TNamed "DT")] [] = Sent [] /\
+  call_method ser_inst 8 S1 true [V "d" (TNamed "DT")] [("d", PNone)] = Sent [("d", JNull)] /\
+  call_method ser_inst 8 S1 true [V "e" (TList (TNamed "DT"))] [("e", PList [PCustom (JStr "a"); PNone])] =
+    Sent [("e", JArr [JArr [JStr "ser_DT"; JStr "a"]; JNull])] /\
+  dictval_str (gen_se (TList (TNamed "DT")) "e" "ser_DT" true 0) =
+    "e if e is None or e is UNSET else [_item0 if _item0 is None else ser_DT(_item0) for _item0 in e]".
+Proof. vm_compute. repeat split. Qed.
 
-(* ... or, with a serialize function that keeps its argument, JSON encoding fails *)
-Theorem C03_omitted_absent_refuted_instrumented :
-  call_method ser_inst 8 S1 true [V "d" (TNamed "DT")] [] = PyNotSerializable.
-Proof. vm_compute. reflexivity. Qed.
-
-(* F10: explicit None is not sent as null *)
-Theorem C03_none_is_null_refuted : exists sent,
-  call_method ser_inst 8 S1 true [V "d" (TNamed "DT")] [("d", PNone)] = Sent sent /\
-  jlookup "d" sent <> Some JNull.
-Proof. eexists. vm_compute. split; [reflexivity|discriminate]. Qed.
-
-(* F10: a list-typed variable: serialize receives the list; the server gets another value *)
-Theorem C03_delivery_refuted_list : ~ C03_delivery_full.
+(* the full statement without the name guards is false: *)
+Theorem C03_delivery_refuted_names : ~ C03_delivery_full.
 Proof.
   intro H.
-  destruct (H ser_inst S1 true [V "e" (TList (TNamed "DT"))] [("e", PList [PCustom (JStr "a")])] 8
-              _ ser_inst_wf eq_refl eq_refl) as [sent [cs [H1 [H2 H3]]]].
-  vm_compute in H1. inversion H1; subst. vm_compute in H2. vm_compute in H3. congruence.
+  destruct (H ser_inst [] true [V "fooBar" (TNamed "Int"); V "foo_bar" (TNamed "Int")] [("foo_bar", PInt 1)] 8
+              _ ser_inst_wf eq_refl) as [sent [cs [H1 _]]].
+  - repeat constructor; simpl; intuition discriminate.
+  - reflexivity.
+  - specialize (H1 8 (le_n 8)). vm_compute in H1. discriminate.
 Qed.
-Print Assumptions C03_delivery_refuted_list.
+Print Assumptions C03_delivery_refuted_names.
 
 (* F7: names that break the method *)
+(* $self / $kwargs alone are fine since /repo a558946 (parameter self_ / kwargs_), kept as regression case;
+   but the renamed parameter can now collide with a variable that is already called self_ *)
+Example C03_self_regression :
+  call_method ser_inst 8 [] true [V "self" (TNamed "Int"); V "kwargs" (TNamed "Int")]
+              [("self_", PInt 1); ("kwargs_", PNone)] = Sent [("self", JInt 1); ("kwargs", JNull)].
+Proof. vm_compute. reflexivity. Qed.
+
 Theorem C03_names_refuted_self :
-  call_method ser_inst 8 [] true [V "self" (TNamed "Int")] [("self", PInt 1)] = PySyntaxError.
+  call_method ser_inst 8 [] false [V "self" (TNamed "Int"); V "self_" (TNamed "Int")]
+              [("self_", PInt 1)] = PySyntaxError.
 Proof. vm_compute. reflexivity. Qed.
 
 Theorem C03_names_refuted_collision :
@@ -152,14 +194,22 @@ Theorem C03_names_refuted_gql :
   call_method ser_inst 8 [] true [V "gql" (TNamed "Int")] [("gql", PInt 1)] = PyNotCallable.
 Proof. vm_compute. reflexivity. Qed.
 
-(* F21 (fixed for input fields by /repo 1ef155d): [Int]! with a None item is now accepted by the class;
+(* a variable literally named UNSET (snake case off) shadows the sentinel in the generated guard
+   `x is UNSET`: its own value is returned unserialized *)
+Theorem C03_names_refuted_unset : exists sent,
+  call_method ser_inst 8 S1 false [V "UNSET" (TList (TNamed "DT"))] [("UNSET", PList [PCustom (JStr "a")])]
+    = Sent sent /\
+  jlookup "UNSET" sent = Some (JArr [JStr "a"]) /\ names_ok S1 false [V "UNSET" (TList (TNamed "DT"))] = false.
+Proof. eexists. vm_compute. repeat split. Qed.
+
+(* F21 (fixed for input fields by /repo 1ef155d: [Int]! with a None item is now accepted by the class;
    the method SIGNATURE still drops the Optional of the items (a type hint, no runtime effect) *)
 Definition S21 : schema :=
   [("In", DInput [{| if_name := "xs"; if_type := TNonNull (TList (TNamed "Int")); if_default := None |}])].
-Example C03_f21_fixed_for_inputs_hint_remains :
+Example C03_f21_regression :
   constructible 8 S21 true (TNamed "In") true (PModel "In" [("xs", PList [PInt 1; PNone])]) = true /\
   option_map (fun r => ann_str (fst r)) (parse_type_node S21 (TNonNull (TList (TNamed "Int"))) true)
-    = Some "List[int]".
+    = Some "List[Optional[int]]".
 Proof. vm_compute. split; reflexivity. Qed.
 
 (* observation: `$b: Int! = 5` is optional for GraphQL but a required Python parameter *)
@@ -183,7 +233,6 @@ Definition vA : pyval :=
 Example C03_hypotheses_satisfiable :
   inputs_ok S2 true = true /\
   typed 8 S2 true (TNonNull (TList (TNamed "InA"))) (PList [vA; PNone]) = true /\
-  g_f10 S2 (TNonNull (TList (TNamed "InA"))) = true /\
   convert_value ser_inst 8 S2 true (PList [vA; PNone]) =
     Some (JArr [JObj [("when", JArr [JStr "ser_DT"; JStr "w"]); ("class", JArr [JStr "RED"]);
                       ("sub", JObj [("fooBar", JNull)])]; JNull]) /\
